@@ -5,7 +5,7 @@ import random
 
 from vlib import *  # noqa
 
-CLAUSES = {"C20": {"woken_by_timeout", "cross_wake", "wrong_token"}, "C21": {"interest_mismatch"}}
+CLAUSES = {"C20": {"woken_by_timeout", "cross_wake", "wrong_token", "not_armed"}, "C21": {"interest_mismatch"}}
 DEATH = {"panic", "abort", "hang"}
 DEVS = ["records_global", "token_fold32", "resume_without_fd_check", "stale_token_on_rewait", "record_token_kept"]
 
@@ -46,6 +46,16 @@ def ready_scenarios(rng, thorough):
             # (steps are [socket, receive timeout ms])
             scs.append({"kind": "ready", "loops": loops, "slots": 3, "tasks": [[[1, 30], [3, 100], [1, 1000]], [[1, 30], [2, 1000]]], "starts": [0, 50],
                         "shape": "takes-turns", "writes": [[240 + j(), 1], [330 + j(), 2]]})
+            # half-close: the socket has a write interest left behind by a send that gave up on its time limit and a read
+            # interest; the hooked shutdown(SHUT_WR) removes the write interest - the read interest must stay armed
+            # (one task does it all / a reader is blocked in recv while another task fills and half-closes; the first
+            # "fill" takes what the socket has room for and returns, the second one finds it full and waits)
+            scs.append({"kind": "ready", "loops": loops, "slots": 1, "shape": "half-close", "starts": [0],
+                        "tasks": [[{"op": "fill", "fd": 1, "ms": 30}, {"op": "fill", "fd": 1, "ms": 30}, [1, 30], {"op": "shut_wr", "fd": 1}, [1, 1000], [1, 1000], [1, 1000], [1, 1000]]],
+                        "writes": [[150 + j(), 1], [190 + j(), 1], [230 + j(), 1], [270 + j(), 1]]})
+            scs.append({"kind": "ready", "loops": loops, "slots": 1, "shape": "half-close-reader-blocked", "starts": [0, 20],
+                        "tasks": [[[1, 1000]] * 4, [{"op": "fill", "fd": 1, "ms": 30}, {"op": "fill", "fd": 1, "ms": 30}, {"op": "shut_wr", "fd": 1}]],
+                        "writes": [[150 + j(), 1], [190 + j(), 1], [230 + j(), 1], [270 + j(), 1]]})
     for s in scs:
         s["src"] = "readiness-" + s["shape"]
     return scs
